@@ -843,6 +843,35 @@ func verifC03RunHistory(dir string, seq int64, al []verifC03Op, fixed []uint8, g
 					}
 				}
 			}
+			// is a wrong edge reached from the written node/edge along several upstream paths (diamond)?
+			var walks func(node string, target *verifC03Edge, depth int) int
+			walks = func(node string, target *verifC03Edge, depth int) int {
+				if depth > 64 {
+					return 0
+				}
+				n := 0
+				for _, f := range next.edges {
+					if f.down == node {
+						if f == target {
+							n++
+						}
+						n += walks(f.up, target, depth+1)
+					}
+				}
+				return n
+			}
+			for _, e := range introduced {
+				var n int
+				if op.kind == verifC03KNp {
+					n = walks(x, e, 0)
+				} else {
+					n = walks(ids[op.p], e, 0)
+				}
+				if n >= 2 {
+					class += "; a wrong edge lies above a diamond (reached along several upstream paths from the write)"
+					break
+				}
+			}
 			var names []string
 			for _, e := range introduced {
 				names = append(names, fmt.Sprintf("%s: stored %d expected %d (from-scratch %d)",
